@@ -1,9 +1,13 @@
 """C04 — self-referential writes iterate the written function exactly."""
 from bounded import gen
-from bounded.run_memory import run_iteration_scope
+from bounded.run_memory import run_template_scope, run_iteration_scope
 from checks.common import CheckRun
 
 EXPLANATION = (
+    "Template lemmas (per program of the enumerated scope, decided by SMT for ALL data values, thresholds and input "
+    "histories): for the blueprint the real pipeline emits, from every settled state and after any single-input change the "
+    "circuit is settled again within K ticks and every reader shows S3's next state (step), the same from the all-zero "
+    "state (base), and a settled state exists (cover) — resp. reader(step^L(s)) == f(reader(s)) for every state (C04). "
     "P tier (unbounded): MemoryBuilder._is_always_write is true exactly when the write enable is the constant 1 (literal or constant node). B tier (bounded): programs m.write(f(m.read())) with f a chain of 1..3 arithmetic steps over the cell, constants "
     "and held inputs (counter, modulo clock, accumulator, LFSR-style mix), extra readers before/after the write — "
     "compiled by the real pipeline with and without optimisation. The blueprint is simulated with the S2 tick model "
@@ -22,4 +26,8 @@ def run(tier):
         cr.bounded_check(run_iteration_scope, f"iteration-{'opt' if optimize else 'noopt'}", progs,
                          f"{len(progs)} programs, {ticks} ticks each, listed constant input valuations; optimize={optimize}",
                          cr.known, optimize=optimize, ticks=ticks)
+    for optimize in (True, False):
+        cr.bounded_check(run_template_scope, f"template-lemmas-{'opt' if optimize else 'noopt'}", "iteration", progs,
+                         f"{len(progs)} programs: cover + base + step lemmas (history) / round-trip lemma (iteration) by SMT over the S2 tick function; optimize={optimize}",
+                         cr.known, optimize=optimize)
     return cr.finish()
